@@ -310,22 +310,22 @@ Theorem C11_generated_publishing_is_the_proved_model : forall N : Num,
   (* class EventBasedCounter *)
   (forall (E : genv N cstate) re p x r, react_rel N cstate SC re (e_react E) -> g_raised x = false ->
      er (fire_all N (e_lsub E) re p (emb SC x r)) = emb SC (gen_EventBasedCounter__fire_events N E x (p_c p)) []) /\
-  (forall (E : genv N cstate) re tm ext p x r, react_rel N cstate SC re (e_react E) ->
+  (forall (E : genv N cstate) re tm ext p x r, react_rel N cstate SC re (e_react E) -> g_raised x = false ->
      er (reg_body N (e_lsub E) tm re ext (emb SC x r) p) = emb SC (gen_EventBasedCounter_register N E x (p_c p)) []) /\
   (forall (E : genv N cstate) fuel tm x r,
      react_rel N cstate SC (fun y q => preg N fuel (e_lsub E) tm false y q) (e_react E) -> g_raised x = false ->
      er (pinit N fuel (e_lsub E) tm (emb SC x r)) = emb SC (gen_EventBasedCounter_initialize N E x) []) /\
-  (forall (E : genv N cstate) re tm ext e x r, react_rel N cstate SC re (e_react E) ->
+  (forall (E : genv N cstate) re tm ext e x r, react_rel N cstate SC re (e_react E) -> g_raised x = false ->
      er (eb_notify N KCounter (e_lsub E) tm re ext (emb SC x r) e) = emb SC (gen_EventBasedCounter_notify N E x e) []) /\
   (* class SimCounter *)
   (forall (E : genv N cstate) re p x r, react_rel N cstate SC re (e_react E) -> g_raised x = false ->
      er (fire_all N (e_lsub E) re p (emb SC x r)) = emb SC (gen_SimCounter__fire_events N E x (p_c p)) []) /\
-  (forall (E : genv N cstate) re tm ext p x r, react_rel N cstate SC re (e_react E) ->
+  (forall (E : genv N cstate) re tm ext p x r, react_rel N cstate SC re (e_react E) -> g_raised x = false ->
      er (reg_body N (e_lsub E) tm re ext (emb SC x r) p) = emb SC (gen_SimCounter_register N E x (p_c p)) []) /\
   (forall (E : genv N cstate) fuel tm x r,
      react_rel N cstate SC (fun y q => preg N fuel (e_lsub E) tm false y q) (e_react E) -> g_raised x = false ->
      er (pinit N fuel (e_lsub E) tm (emb SC x r)) = emb SC (gen_SimCounter_initialize N E x) []) /\
-  (forall (E : genv N cstate) re tm ext e x r, react_rel N cstate SC re (e_react E) ->
+  (forall (E : genv N cstate) re tm ext e x r, react_rel N cstate SC re (e_react E) -> g_raised x = false ->
      er (eb_notify N KCounter (e_lsub E) tm re ext (emb SC x r) e) = emb SC (gen_SimCounter_super_EventBasedCounter_notify N E x e) []) /\
   (forall (E : genv N cstate) f e x r,
      react_rel N cstate SC (react N f (e_lsub E) (e_tm E)) (e_react E) -> g_raised x = false ->
@@ -333,22 +333,22 @@ Theorem C11_generated_publishing_is_the_proved_model : forall N : Num,
   (* class EventBasedTally *)
   (forall (E : genv N (tstate N)) re p x r, react_rel N (tstate N) ST re (e_react E) -> g_raised x = false ->
      er (fire_all N (e_lsub E) re p (emb ST x r)) = emb ST (gen_EventBasedTally__fire_events N E x (p_v p)) []) /\
-  (forall (E : genv N (tstate N)) re tm ext p x r, react_rel N (tstate N) ST re (e_react E) ->
+  (forall (E : genv N (tstate N)) re tm ext p x r, react_rel N (tstate N) ST re (e_react E) -> g_raised x = false ->
      er (reg_body N (e_lsub E) tm re ext (emb ST x r) p) = emb ST (gen_EventBasedTally_register N E x (p_v p)) []) /\
   (forall (E : genv N (tstate N)) fuel tm x r,
      react_rel N (tstate N) ST (fun y q => preg N fuel (e_lsub E) tm false y q) (e_react E) -> g_raised x = false ->
      er (pinit N fuel (e_lsub E) tm (emb ST x r)) = emb ST (gen_EventBasedTally_initialize N E x) []) /\
-  (forall (E : genv N (tstate N)) re tm ext e x r, react_rel N (tstate N) ST re (e_react E) ->
+  (forall (E : genv N (tstate N)) re tm ext e x r, react_rel N (tstate N) ST re (e_react E) -> g_raised x = false ->
      er (eb_notify N KTally (e_lsub E) tm re ext (emb ST x r) e) = emb ST (gen_EventBasedTally_notify N E x e) []) /\
   (* class SimTally *)
   (forall (E : genv N (tstate N)) re p x r, react_rel N (tstate N) ST re (e_react E) -> g_raised x = false ->
      er (fire_all N (e_lsub E) re p (emb ST x r)) = emb ST (gen_SimTally__fire_events N E x (p_v p)) []) /\
-  (forall (E : genv N (tstate N)) re tm ext p x r, react_rel N (tstate N) ST re (e_react E) ->
+  (forall (E : genv N (tstate N)) re tm ext p x r, react_rel N (tstate N) ST re (e_react E) -> g_raised x = false ->
      er (reg_body N (e_lsub E) tm re ext (emb ST x r) p) = emb ST (gen_SimTally_register N E x (p_v p)) []) /\
   (forall (E : genv N (tstate N)) fuel tm x r,
      react_rel N (tstate N) ST (fun y q => preg N fuel (e_lsub E) tm false y q) (e_react E) -> g_raised x = false ->
      er (pinit N fuel (e_lsub E) tm (emb ST x r)) = emb ST (gen_SimTally_initialize N E x) []) /\
-  (forall (E : genv N (tstate N)) re tm ext e x r, react_rel N (tstate N) ST re (e_react E) ->
+  (forall (E : genv N (tstate N)) re tm ext e x r, react_rel N (tstate N) ST re (e_react E) -> g_raised x = false ->
      er (eb_notify N KTally (e_lsub E) tm re ext (emb ST x r) e) = emb ST (gen_SimTally_super_EventBasedTally_notify N E x e) []) /\
   (forall (E : genv N (tstate N)) f e x r,
      react_rel N (tstate N) ST (react N f (e_lsub E) (e_tm E)) (e_react E) -> g_raised x = false ->
@@ -356,22 +356,22 @@ Theorem C11_generated_publishing_is_the_proved_model : forall N : Num,
   (* class EventBasedWeightedTally *)
   (forall (E : genv N (wstate N)) re p x r, react_rel N (wstate N) SW re (e_react E) -> g_raised x = false ->
      er (fire_all N (e_lsub E) re p (emb SW x r)) = emb SW (gen_EventBasedWeightedTally__fire_events N E x (p_v p)) []) /\
-  (forall (E : genv N (wstate N)) re tm ext p x r, react_rel N (wstate N) SW re (e_react E) ->
+  (forall (E : genv N (wstate N)) re tm ext p x r, react_rel N (wstate N) SW re (e_react E) -> g_raised x = false ->
      er (reg_body N (e_lsub E) tm re ext (emb SW x r) p) = emb SW (gen_EventBasedWeightedTally_register N E x (p_w p) (p_v p)) []) /\
   (forall (E : genv N (wstate N)) fuel tm x r,
      react_rel N (wstate N) SW (fun y q => preg N fuel (e_lsub E) tm false y q) (e_react E) -> g_raised x = false ->
      er (pinit N fuel (e_lsub E) tm (emb SW x r)) = emb SW (gen_EventBasedWeightedTally_initialize N E x) []) /\
-  (forall (E : genv N (wstate N)) re tm ext e x r, react_rel N (wstate N) SW re (e_react E) ->
+  (forall (E : genv N (wstate N)) re tm ext e x r, react_rel N (wstate N) SW re (e_react E) -> g_raised x = false ->
      er (eb_notify N KWeighted (e_lsub E) tm re ext (emb SW x r) e) = emb SW (gen_EventBasedWeightedTally_notify N E x e) []) /\
   (* class SimWeightedTally *)
   (forall (E : genv N (wstate N)) re p x r, react_rel N (wstate N) SW re (e_react E) -> g_raised x = false ->
      er (fire_all N (e_lsub E) re p (emb SW x r)) = emb SW (gen_SimWeightedTally__fire_events N E x (p_v p)) []) /\
-  (forall (E : genv N (wstate N)) re tm ext p x r, react_rel N (wstate N) SW re (e_react E) ->
+  (forall (E : genv N (wstate N)) re tm ext p x r, react_rel N (wstate N) SW re (e_react E) -> g_raised x = false ->
      er (reg_body N (e_lsub E) tm re ext (emb SW x r) p) = emb SW (gen_SimWeightedTally_register N E x (p_w p) (p_v p)) []) /\
   (forall (E : genv N (wstate N)) fuel tm x r,
      react_rel N (wstate N) SW (fun y q => preg N fuel (e_lsub E) tm false y q) (e_react E) -> g_raised x = false ->
      er (pinit N fuel (e_lsub E) tm (emb SW x r)) = emb SW (gen_SimWeightedTally_initialize N E x) []) /\
-  (forall (E : genv N (wstate N)) re tm ext e x r, react_rel N (wstate N) SW re (e_react E) ->
+  (forall (E : genv N (wstate N)) re tm ext e x r, react_rel N (wstate N) SW re (e_react E) -> g_raised x = false ->
      er (eb_notify N KWeighted (e_lsub E) tm re ext (emb SW x r) e) = emb SW (gen_SimWeightedTally_super_EventBasedWeightedTally_notify N E x e) []) /\
   (forall (E : genv N (wstate N)) f e x r,
      react_rel N (wstate N) SW (react N f (e_lsub E) (e_tm E)) (e_react E) -> g_raised x = false ->
@@ -379,28 +379,28 @@ Theorem C11_generated_publishing_is_the_proved_model : forall N : Num,
   (* class EventBasedTimestampWeightedTally *)
   (forall (E : genv N (tsstate N)) re p ts x r, react_rel N (tsstate N) SP re (e_react E) -> g_raised x = false ->
      er (fire_all N (e_lsub E) re p (emb SP x r)) = emb SP (gen_EventBasedTimestampWeightedTally__fire_events N E x ts (p_v p)) []) /\
-  (forall (E : genv N (tsstate N)) re tm ext p x r, react_rel N (tsstate N) SP re (e_react E) ->
+  (forall (E : genv N (tsstate N)) re tm ext p x r, react_rel N (tsstate N) SP re (e_react E) -> g_raised x = false ->
      er (reg_body N (e_lsub E) tm re ext (emb SP x r) p) = emb SP (gen_EventBasedTimestampWeightedTally_register N E x (ONum tm) (p_v p)) []) /\
   (forall (E : genv N (tsstate N)) fuel tm x r,
      react_rel N (tsstate N) SP (fun y q => preg N fuel (e_lsub E) tm false y q) (e_react E) -> g_raised x = false ->
      er (pinit N fuel (e_lsub E) tm (emb SP x r)) = emb SP (gen_EventBasedTimestampWeightedTally_initialize N E x) []) /\
-  (forall (E : genv N (tsstate N)) re tm ext e x r, react_rel N (tsstate N) SP re (e_react E) ->
+  (forall (E : genv N (tsstate N)) re tm ext e x r, react_rel N (tsstate N) SP re (e_react E) -> g_raised x = false ->
      er (eb_notify N KPersistent (e_lsub E) tm re ext (emb SP x r) e) = emb SP (gen_EventBasedTimestampWeightedTally_notify N E x e) []) /\
   (forall (E : genv N (tsstate N)) f tm x r,
-     react_rel N (tsstate N) SP (fun y q => preg N f (e_lsub E) tm false y q) (e_react E) ->
+     react_rel N (tsstate N) SP (fun y q => preg N f (e_lsub E) tm false y q) (e_react E) -> g_raised x = false ->
      er (pclose N (S f) (e_lsub E) tm (emb SP x r)) = emb SP (gen_EventBasedTimestampWeightedTally_end_observations N E x (ONum tm)) []) /\
   (* class SimPersistent *)
   (forall (E : genv N (tsstate N)) re p ts x r, react_rel N (tsstate N) SP re (e_react E) -> g_raised x = false ->
      er (fire_all N (e_lsub E) re p (emb SP x r)) = emb SP (gen_SimPersistent__fire_events N E x ts (p_v p)) []) /\
-  (forall (E : genv N (tsstate N)) re tm ext p x r, react_rel N (tsstate N) SP re (e_react E) ->
+  (forall (E : genv N (tsstate N)) re tm ext p x r, react_rel N (tsstate N) SP re (e_react E) -> g_raised x = false ->
      er (reg_body N (e_lsub E) tm re ext (emb SP x r) p) = emb SP (gen_SimPersistent_register N E x (ONum tm) (p_v p)) []) /\
   (forall (E : genv N (tsstate N)) fuel tm x r,
      react_rel N (tsstate N) SP (fun y q => preg N fuel (e_lsub E) tm false y q) (e_react E) -> g_raised x = false ->
      er (pinit N fuel (e_lsub E) tm (emb SP x r)) = emb SP (gen_SimPersistent_initialize N E x) []) /\
-  (forall (E : genv N (tsstate N)) re tm ext e x r, react_rel N (tsstate N) SP re (e_react E) ->
+  (forall (E : genv N (tsstate N)) re tm ext e x r, react_rel N (tsstate N) SP re (e_react E) -> g_raised x = false ->
      er (eb_notify N KPersistent (e_lsub E) tm re ext (emb SP x r) e) = emb SP (gen_SimPersistent_super_EventBasedTimestampWeightedTally_notify N E x e) []) /\
   (forall (E : genv N (tsstate N)) f tm x r,
-     react_rel N (tsstate N) SP (fun y q => preg N f (e_lsub E) tm false y q) (e_react E) ->
+     react_rel N (tsstate N) SP (fun y q => preg N f (e_lsub E) tm false y q) (e_react E) -> g_raised x = false ->
      er (pclose N (S f) (e_lsub E) tm (emb SP x r)) = emb SP (gen_SimPersistent_end_observations N E x (ONum tm)) []) /\
   (forall (E : genv N (tsstate N)) f e x r,
      react_rel N (tsstate N) SP (react N f (e_lsub E) (e_tm E)) (e_react E) -> g_raised x = false ->
